@@ -263,6 +263,7 @@ class Run(object):
             if method == "close":
                 self.devstate = "closed"
             self.emit("Enter", me.name, site=site["id"] if site else "?", m=method, held=held)
+            self.sch.point()                      # preemption while the driver is talking to the device
         else:
             self.indrv.remove(me.name)
             self.emit("Exit", me.name, m=method)
